@@ -42,19 +42,24 @@ Print Assumptions sql_mask_int_roundtrip.
 (* ---------------------------------------------------------------- key wrapping data *)
 Definition kwd_roundtrip_statement : Prop := forall w k, kwd_flatten w = Ok k -> kwd_unflatten k = Ok w.
 
-Theorem kwd_roundtrip_refuted : exists w k, kwd_flatten w = Ok k /\ kwd_unflatten k <> Ok w.     (* known finding C05-kwd-falsy-only-parameters *)
+Theorem kwd_roundtrip_refuted : exists w k, kwd_flatten w = Ok k /\ kwd_unflatten k <> Ok w.     (* known finding C05-kwd-empty-parameters *)
 Proof. exact kwd_roundtrip_refuted_l. Qed.
 Print Assumptions kwd_roundtrip_refuted.
 
-Theorem kwd_roundtrip_partial : forall w, kwd_no_falsy_only w -> exists k, kwd_flatten w = Ok k /\ kwd_unflatten k = Ok w.
+Theorem kwd_roundtrip_partial : forall w, kwd_no_empty_params w -> exists k, kwd_flatten w = Ok k /\ kwd_unflatten k = Ok w.
 Proof. exact kwd_roundtrip_l. Qed.
 Print Assumptions kwd_roundtrip_partial.
 
 Definition kwd_full : option kwd :=
   Some (mkKW 1 (Some (mkKI [55] (Some (mkCP (Some 1) None None None None None (Some false) (Some 0) None None None None None))))
              (Some (mkKI [] (Some (mkCP None None (Some 6) None None None None None (Some 16) None None None None)))) (Some []) None (Some 1)).
-Example kwd_roundtrip_sat : kwd_no_falsy_only kwd_full.
+Example kwd_roundtrip_sat : kwd_no_empty_params kwd_full.
 Proof. simpl. split; reflexivity. Qed.
+
+(* values that are merely falsy survive (regression witness for fix 46c741e) *)
+Theorem kwd_falsy_values_kept : kwd_no_empty_params kwd_falsy /\ exists k, kwd_flatten kwd_falsy = Ok k /\ kwd_unflatten k = Ok kwd_falsy.
+Proof. split; [simpl; split; reflexivity|]. eexists. split; vm_compute; reflexivity. Qed.
+Print Assumptions kwd_falsy_values_kept.
 
 Theorem kwd_sql_roundtrip : forall k, kc_enums_ok k -> kc_map sql_enum_in (kc_map sql_enum_out k) = k.
 Proof. exact kc_sql_roundtrip. Qed.
@@ -80,7 +85,7 @@ Qed.
 Definition get_after_register_statement : Prop := forall v o n s l st st' u,
   store_ok st -> srv_register v o n s l st = Ok (st', u) -> srv_get st' u = Ok s.
 
-Theorem get_after_register_refuted :                 (* known finding C05-kwd-falsy-only-parameters, end to end *)
+Theorem get_after_register_refuted :                 (* known finding C05-kwd-empty-parameters, end to end *)
   exists v o n s l st' u, srv_register v o n s l store0 = Ok (st', u) /\ srv_get st' u <> Ok s.
 Proof.
   exists (1, 4), [97], 1600000000, (SKey CSym (mkKB KFT_RAW [1; 2] (Some 3) (Some 16) kwd_witness)), []. eexists. eexists.
